@@ -1,4 +1,5 @@
 import RV.C15.Model
+import RV.C15.ModelTD
 import RV.Base.Proto
 /-
   C15 driver.  Terms are naturals owned by the harness; variables are `?k` with k < n.
@@ -7,6 +8,7 @@ import RV.Base.Proto
     t A|B s p o m1,m2,…           -> ok     a triple of data set A or B; members of the aggregate holding it
     bgp s p o s p o …             -> ok     the current basic graph pattern
     init v t                      -> ok     initBindings {?v: t}
+    noinit                        -> ok     no initBindings
     store mem|simple|aud|agg      -> ok     which store model answers `triples`
     eval given                    -> rows … evalBGP in the written order
     eval perm i,j,…               -> rows … evalBGP in that order
@@ -19,6 +21,12 @@ import RV.Base.Proto
     evalinit                      -> rows … `evalInit` with the current initBindings
     evalvalues                    -> rows … `evalValues`: the same bindings as a VALUES row
     state                         -> clean | dirty
+    quad s p o g                  -> ok     a quad of the data set of the top-down evaluator (g = 0: default graph)
+    p <prefix tokens>             -> ok     an algebra tree:  bgp k s p o … | join P P | union P P | minus P P
+                                            | ljoin (none | e E) P P | filter E P | extend ?v T P | graph T P
+                                            | values k (n tokens per row, `-` = UNDEF)…
+    evaltd k v…                   -> rows … `evalSelectTD`: reorderTriples on every BGP, then the top-down evaluator
+                                            with the current initBindings, projected on the k variables
   Rows: one `t0,t1,…` per solution (`-` = unbound), sorted, separated by blanks.
 -/
 open RV RV.C15 RV.Proto
@@ -35,10 +43,12 @@ structure St where
   init : Row n
   tree : Option (QS n)
   sel : Option (SelQ n)
+  quads : List (Triple × Nat)
+  ptree : Option (P n)
 
 def St.fresh (n lo hi : Nat) : St :=
   { n := n, litLo := lo, litHi := hi, dataA := [], dataB := [], useB := false, store := 0, bgp := [],
-    init := Row.empty, tree := none, sel := none }
+    init := Row.empty, tree := none, sel := none, quads := [], ptree := none }
 
 def pt? (n : Nat) (w : String) : Option (PT n) :=
   if w.startsWith "?" then
@@ -158,6 +168,76 @@ def parseQ (n : Nat) : Nat → List String → Option (Q n × List String)
       pure (.proj vs q, r2)
     | _ => none
 
+def takeRow (n : Nat) (toks : List String) : Option (Row n × List String) :=
+  if toks.length < n then none else
+    let ws := toks.take n
+    match ws.mapM (fun w => if w = "-" then some (none : Option Term) else w.toNat?.map some) with
+    | some vals => some ((fun v => (vals[v.val]?).getD none), toks.drop n)
+    | none => none
+
+def takeRows (n : Nat) : Nat → List String → Option (List (Row n) × List String)
+  | 0, rest => some ([], rest)
+  | k + 1, toks => do
+    let (r, rest) ← takeRow n toks
+    let (rs, rest') ← takeRows n k rest
+    pure (r :: rs, rest')
+
+def parseP (n : Nat) : Nat → List String → Option (P n × List String)
+  | 0, _ => none
+  | fuel + 1, toks =>
+    match toks with
+    | "bgp" :: k :: rest => do
+      let k ← k.toNat?
+      let (ts, r) ← takeTPs n k rest
+      pure (.bgp ts, r)
+    | "join" :: rest => do
+      let (a, r1) ← parseP n fuel rest
+      let (b, r2) ← parseP n fuel r1
+      pure (.join a b, r2)
+    | "union" :: rest => do
+      let (a, r1) ← parseP n fuel rest
+      let (b, r2) ← parseP n fuel r1
+      pure (.union a b, r2)
+    | "minus" :: rest => do
+      let (a, r1) ← parseP n fuel rest
+      let (b, r2) ← parseP n fuel r1
+      pure (.minus a b, r2)
+    | "ljoin" :: "none" :: rest => do
+      let (a, r1) ← parseP n fuel rest
+      let (b, r2) ← parseP n fuel r1
+      pure (.leftJoin a b none, r2)
+    | "ljoin" :: "e" :: rest => do
+      let (e, r0) ← parseE n (rest.length + 1) rest
+      let (a, r1) ← parseP n fuel r0
+      let (b, r2) ← parseP n fuel r1
+      pure (.leftJoin a b (some e), r2)
+    | "filter" :: rest => do
+      let (e, r1) ← parseE n (rest.length + 1) rest
+      let (q, r2) ← parseP n fuel r1
+      pure (.filter e q, r2)
+    | "extend" :: v :: t :: rest =>
+      match pt? n v, pt? n t with
+      | some (.var v), some t => do
+        let (q, r) ← parseP n fuel rest
+        pure (.extend q v t, r)
+      | _, _ => none
+    | "graph" :: t :: rest => do
+      let t ← pt? n t
+      let (q, r) ← parseP n fuel rest
+      pure (.graph t q, r)
+    | "values" :: k :: rest => do
+      let k ← k.toNat?
+      let (rows, r) ← takeRows n k rest
+      pure (.values rows, r)
+    | _ => none
+
+/-- the data set of the top-down evaluator: the default graph (g = 0) and one named graph per other g, in the order
+    of first appearance -/
+def St.dset (s : St) : DSet :=
+  let names := (s.quads.map (·.2)).eraseDups.filter (· != 0)
+  { dflt := graphStore ((s.quads.filter (·.2 == 0)).map (·.1)),
+    named := names.map fun nm => (nm, graphStore ((s.quads.filter (·.2 == nm)).map (·.1))) }
+
 def parseSel (n : Nat) (toks : List String) : Option (SelQ n) := do
   match toks with
   | k :: rest =>
@@ -210,6 +290,7 @@ def step (s : St) : List String → St × String
     match var? s.n v, t.toNat? with
     | some v, some t => ({ s with init := s.init.set v t }, "ok")
     | _, _ => (s, "bad-op")
+  | ["noinit"] => ({ s with init := Row.empty }, "ok")
   | ["store", w] =>
     if w = "mem" then ({ s with store := 0 }, "ok")
     else if w = "simple" then ({ s with store := 1 }, "ok")
@@ -249,6 +330,23 @@ def step (s : St) : List String → St × String
     match s.sel with
     | some q => (s, showRows (evalValues s.storeFn s.init q))
     | none => (s, "bad-op")
+  | ["quad", a, b, c, g] =>
+    match a.toNat?, b.toNat?, c.toNat?, g.toNat? with
+    | some a, some b, some c, some g => ({ s with quads := s.quads ++ [((a, b, c), g)] }, "ok")
+    | _, _, _, _ => (s, "bad-op")
+  | "p" :: toks =>
+    match parseP s.n (toks.length + 1) toks with
+    | some (q, []) => ({ s with ptree := some q }, "ok")
+    | _ => (s, "bad-op")
+  | "evaltd" :: k :: vs =>
+    match s.ptree, k.toNat? with
+    | some q, some k =>
+      match takeVars s.n k vs with
+      | some (pv, []) =>
+        (s, showRows (evalSelectTD s.dset s.init pv
+          (q.reorder (fun t => s.litLo ≤ t && t ≤ s.litHi) (fun _ _ => true))))
+      | _ => (s, "bad-op")
+    | _, _ => (s, "bad-op")
   | ["state"] =>
     match s.tree with
     | some t => (s, if t.clean then "clean" else "dirty")
